@@ -222,22 +222,53 @@ func stage2(u *Unit, o *Obligation, cfg SolverCfg) {
 		out    string
 		secs   float64
 	}
-	rc := make(chan res, len(solvers))
+	// portfolio: every solver on the exact script, plus (when the script multiplies by large constants) two solvers
+	// on the multiplication-abstracted script (absmul.go); from the latter only `unsat` is a verdict.
+	type attempt struct {
+		s        solverSpec
+		file     string
+		abstract bool
+	}
+	var attempts []attempt
 	for _, s := range solvers {
-		go func(s solverSpec) {
+		attempts = append(attempts, attempt{s, file, false})
+	}
+	afile := ""
+	if src, err := os.ReadFile(file); err == nil {
+		if abs, ok := abstractMul(string(src)); ok {
+			afile = strings.TrimSuffix(file, ".smt2") + ".absmul.smt2"
+			os.WriteFile(afile, []byte(abs), 0o644)
+			for _, s := range solvers {
+				if s.name == "cvc5" || s.name == "z3new" {
+					as := s
+					as.name += "+absmul"
+					attempts = append(attempts, attempt{as, afile, true})
+				}
+			}
+		}
+	}
+	if afile != "" && !cfg.KeepFiles {
+		defer os.Remove(afile)
+	}
+	rc := make(chan res, len(attempts))
+	for _, a := range attempts {
+		go func(a attempt) {
 			cpuSem <- true
 			defer func() { <-cpuSem }()
 			if ctx.Err() != nil {
-				rc <- res{s, "cancelled", "", 0}
+				rc <- res{a.s, "cancelled", "", 0}
 				return
 			}
-			st, out, secs := runSolverCtx(ctx, s, file, cfg.Timeout)
-			rc <- res{s, st, out, secs}
-		}(s)
+			st, out, secs := runSolverCtx(ctx, a.s, a.file, cfg.Timeout)
+			if a.abstract && st != "unsat" {
+				st, out = "cancelled", "" // a weakened script proves nothing unless it is unsat
+			}
+			rc <- res{a.s, st, out, secs}
+		}(a)
 	}
 	verdicts := map[string]string{}
 	var satSolver *solverSpec
-	for range solvers {
+	for range attempts {
 		r := <-rc
 		o.Seconds += r.secs
 		verdicts[r.s.name] = r.status
